@@ -165,6 +165,9 @@ def check_worker_depth_and_init(depth: int, init_kind: int, n_tasks: int) -> boo
 
     def initializer(*a):
         order.append(("init", a))
+        # user code of the worker: an executor created *here* is checked against, and spawns from, the depth
+        # the worker has published at this point - it must already be the worker's own depth
+        order.append(("depth-in-init", pe._CURRENT_DEPTH))
         if init_kind == 1:
             raise ValueError("init failed")
         if init_kind == 2:
@@ -203,6 +206,8 @@ def check_worker_depth_and_init(depth: int, init_kind: int, n_tasks: int) -> boo
          pe._USE_PSUTIL, pe.LOGGER) = saved
     if order[0] != ("init", (1, 2)) or sum(1 for o in order if o[0] == "init") != 1:
         return False  # initializer first, exactly once, with its initargs
+    if order[1] != ("depth-in-init", depth + 1):
+        return False  # C19: the nesting depth is in force before any user code of the worker runs (finding F12)
     if init_kind != 0:
         # failure: the worker returns without ever serving a task
         return ("get",) not in order and rq.items == [] and ("critical",) in order
